@@ -16,6 +16,7 @@ import (
 	"github.com/attestantio/go-eth2-client/spec/phase0"
 	"github.com/attestantio/vouch/internal/vnd"
 	"github.com/attestantio/vouch/internal/vstub"
+	"github.com/rs/zerolog"
 )
 
 type c07Node struct {
@@ -26,13 +27,51 @@ type c07Node struct {
 	calls    int
 }
 
-func (n *c07Node) Proposal(_ context.Context, _ *api.ProposalOpts) (*api.Response[*api.VersionedProposal], error) {
+func (n *c07Node) Proposal(ctx context.Context, _ *api.ProposalOpts) (*api.Response[*api.VersionedProposal], error) {
 	n.calls++
-	vnd.Sleep(n.latency)
+	// like a real HTTP client the node stub gives up when the context it was called with ends
+	select {
+	case <-ctx.Done():
+		return nil, ctx.Err()
+	case <-time.After(n.latency):
+	}
 	if n.outcome == 1 {
 		return nil, errors.New("mock provider error")
 	}
 	return &api.Response[*api.VersionedProposal]{Data: n.proposal, Metadata: map[string]any{}}, nil
+}
+
+// c07Chain stands for the beacon node New talks to: it states the chain
+// specification, accepts the head event subscription (no event is ever
+// delivered), and has neither blocks nor block roots to offer.
+type c07Chain struct{}
+
+func (c *c07Chain) Spec(_ context.Context, _ *api.SpecOpts) (*api.Response[map[string]any], error) {
+	return &api.Response[map[string]any]{Data: map[string]any{"SLOTS_PER_EPOCH": uint64(32)}, Metadata: map[string]any{}}, nil
+}
+
+func (c *c07Chain) Events(_ context.Context, _ []string, _ eth2client.EventHandlerFunc) error {
+	return nil
+}
+
+func (c *c07Chain) SignedBeaconBlock(_ context.Context, _ *api.SignedBeaconBlockOpts) (*api.Response[*spec.VersionedSignedBeaconBlock], error) {
+	return nil, errors.New("mock: no block")
+}
+
+func (c *c07Chain) BlockRootToSlot(_ context.Context, _ phase0.Root) (phase0.Slot, error) {
+	return 0, errors.New("mock: unknown root")
+}
+
+// c07New builds the strategy the way main does: through New, which reads the
+// chain specification and subscribes to head events.
+func c07New(timeout time.Duration, ct *vstub.ChainTime, providers map[string]eth2client.ProposalProvider, label string) *Service {
+	chain := &c07Chain{}
+	s, err := New(context.Background(), WithLogLevel(zerolog.Disabled), WithClientMonitor(vstub.ClientMonitor{}),
+		WithTimeout(timeout), WithProcessConcurrency(int64(len(providers))), WithChainTimeService(ct),
+		WithEventsProvider(chain), WithSpecProvider(chain), WithProposalProviders(providers),
+		WithSignedBeaconBlockProvider(chain), WithBlockRootToSlotCache(chain))
+	vnd.Assert(err == nil && s != nil, label)
+	return s
 }
 
 // total values in wei: ordinary blocks and high-value ones at and beyond 2^64 wei (18.44 ETH)
@@ -46,7 +85,8 @@ var c07Values = []string{"35000000000000000", "3000000000000000000", "1844674407
 func VerifC07_ProposalBest() {
 	timeout := time.Duration(vnd.I64("timeout"))
 	vnd.Assume(timeout >= 2 && timeout <= 60000) // virtual nanoseconds
-	s := &Service{clientMonitor: vstub.ClientMonitor{}, timeout: timeout, chainTime: vstub.NewChainTime(0), proposalProviders: map[string]eth2client.ProposalProvider{}}
+	ct := vstub.NewChainTime(0)
+	providers := map[string]eth2client.ProposalProvider{}
 	const n = 2
 	nodes := make([]*c07Node, n)
 	totals := make([]*big.Int, n)
@@ -74,8 +114,9 @@ func VerifC07_ProposalBest() {
 		nd.proposal = &api.VersionedProposal{Version: spec.DataVersionCapella, ConsensusValue: cons, ExecutionValue: exec,
 			Capella: &capella.BeaconBlock{Slot: 5, ProposerIndex: phase0.ValidatorIndex(i), Body: &capella.BeaconBlockBody{ETH1Data: &phase0.ETH1Data{}, SyncAggregate: nil, ExecutionPayload: &capella.ExecutionPayload{FeeRecipient: fee}}}}
 		nodes[i] = nd
-		s.proposalProviders[nd.name] = nd
+		providers[nd.name] = nd
 	}
+	s := c07New(timeout, ct, providers, "C07.new.accepted")
 	start := vnd.NowNs()
 	resp, err := s.Proposal(context.Background(), &api.ProposalOpts{Slot: 5})
 	elapsed := time.Duration(vnd.NowNs() - start)
